@@ -30,7 +30,7 @@ from deeprob.spn.structure.leaf import Bernoulli, Categorical, Uniform, Isotonic
 from deeprob.spn.algorithms import moments as M
 
 warnings.simplefilter('ignore')
-EXE = os.environ.get('DEEPROB_DRIVER', '/verif/lean/.lake/build/bin/driver')
+EXE = os.environ.get('DEEPROB_DRIVER', __import__('os').path.join(__import__('os').path.dirname(__import__('os').path.dirname(__import__('os').path.dirname(__import__('os').path.abspath(__file__)))), 'lean', '.lake', 'build', 'bin', 'driver'))
 SEED = int(sys.argv[1]) if len(sys.argv) > 1 else 20260929
 rs = np.random.RandomState(SEED % (2 ** 32))
 np.random.seed((SEED * 7919 + 13) % (2 ** 32))      # `Isotonic.sample` and SciPy's `rvs` draw from the global state
